@@ -33,7 +33,8 @@ ConnectMethods ==
 AllDevices == {"ebb_ok", "ebb_late", "ebb_old", "non_ebb", "silent", "unopenable", "absent", "raise_on_probe"}
 OkDevices == {"ebb_ok"}
 \* C16: board round trips
-Int32Vals == {0, 1, -1, 127, 128, 255, 256, 65535, 16777216, -16777216, 16909060, -16909060, 2147483647, -2147483647}
+MinInt32 == (0 - 2147483647) - 1
+Int32Vals == {0, 1, -1, 127, 128, 255, 256, 65535, 16777216, -16777216, 16909060, -16909060, 2147483647, -2147483647, MinInt32}
 BoardCalls ==
   {C("var_write_int32", <<v, i>>, "") : v \in Int32Vals, i \in {0, 1, 27, 28}} \cup {C("var_read_int32", <<i>>, "") : i \in {0, 1, 27, 28}}
   \cup {C("write_nickname", <<>>, nm) : nm \in {"Axi", "East Wing", ""}} \cup {C("query_nickname", <<>>, "")}
